@@ -61,7 +61,7 @@ AddEdge(e) == /\ phase = "e" /\ Cardinality(edges) < MaxEdges
               /\ ~\E x \in edges : x[1] = e[1] /\ x[2] = e[2]
               /\ edges' = edges \cup {e} /\ UNCHANGED <<phase, brs, deco>>
 ToBranches == /\ phase = "e" /\ phase' = "b" /\ UNCHANGED <<edges, brs, deco>>
-AddBranch(b) == /\ phase = "b" /\ Len(brs) < MaxBr
+AddBranch(b) == /\ phase = "b" /\ Len(brs) < MaxBr /\ deco.pol = <<>>
                 /\ BRank(b) > MaxRank(BrSet, BRank)
                 /\ ~\E x \in edges : x[1] = b.from /\ x[2] \in b.ends
                 /\ brs' = Append(brs, b) /\ UNCHANGED <<phase, edges, deco>>
@@ -84,14 +84,17 @@ Marks == {m \in [before : SUBSET Nodes, after : SUBSET Nodes, rerun : IF AllowRe
             /\ Cardinality(m.before) + Cardinality(m.after) + Cardinality(m.rerun) <= MaxMarks
             /\ Cardinality(m.rerun) <= 1}
 Fails == IF AllowFail THEN {<<>>} \cup {<<[n |-> n, kind |-> k]>> : n \in Nodes, k \in {"err", "panic"}} ELSE {<<>>}
-Finish == /\ phase = "b" /\ WellFormed
-          /\ \E pol \in [1..Len(brs) -> UNION {PolSet(b) : b \in BrSet} \cup {<<>>}] :
-               /\ \A i \in 1..Len(brs) : pol[i] \in PolSet(brs[i])
-               /\ \E m \in Marks, f \in Fails, mx \in MaxChoice :
-                    deco' = [pol |-> pol, before |-> m.before, after |-> m.after, rerun |-> m.rerun, fail |-> f, max |-> mx]
+\* policies are chosen one branch at a time (a single action choosing all of them has |PolSet|^branches successors, which
+\* TLC must enumerate even to pick one at random in simulation mode)
+ChoosePol == /\ phase = "b" /\ WellFormed /\ Len(deco.pol) < Len(brs)
+             /\ \E p \in PolSet(brs[Len(deco.pol) + 1]) : deco' = [deco EXCEPT !.pol = Append(deco.pol, p)]
+             /\ UNCHANGED <<phase, edges, brs>>
+Finish == /\ phase = "b" /\ WellFormed /\ Len(deco.pol) = Len(brs)
+          /\ \E m \in Marks, f \in Fails, mx \in MaxChoice :
+               deco' = [deco EXCEPT !.before = m.before, !.after = m.after, !.rerun = m.rerun, !.fail = f, !.max = mx]
           /\ phase' = "done" /\ UNCHANGED <<edges, brs>>
 
-GenNext == (\E e \in EdgeU : AddEdge(e)) \/ ToBranches \/ (\E b \in BranchU : AddBranch(b)) \/ Finish
+GenNext == (\E e \in EdgeU : AddEdge(e)) \/ ToBranches \/ (\E b \in BranchU : AddBranch(b)) \/ ChoosePol \/ Finish
 GenSpec == GenInit /\ [][GenNext]_gvars
 
 \* ---- emission ----
